@@ -121,3 +121,41 @@ func camel(s string) string {
 	}
 	return string(out)
 }
+
+// TwoServices returns a copy of a feature file (built with a service) that declares a second
+// service over the same request/response types: what a generator keeps per message across the
+// services of one run (schema caches, "already emitted" sets) must not starve the second service.
+func TwoServices(fp *FeaturePkg) *spec.File {
+	f := fp.File.Clone()
+	if len(f.Services) == 0 {
+		return f
+	}
+	first := f.Services[0]
+	second := &spec.Service{Name: first.Name + "Two", BasePath: spec.S("/lab2")}
+	// reversed method order: the second service meets the types in another order
+	for i := len(first.Methods) - 1; i >= 0; i-- {
+		m := *first.Methods[i]
+		if m.HTTP != nil {
+			h := *m.HTTP
+			m.HTTP = &h
+		}
+		m.Name = m.Name + "Again"
+		second.Methods = append(second.Methods, &m)
+	}
+	f.Services = append(f.Services, second)
+	return f
+}
+
+// SplitShared spreads a feature package over three files of the same proto and Go package: the
+// types in a service-less file, and two files that each declare one service over those types.
+func SplitShared(fp *FeaturePkg) []*spec.File {
+	two := TwoServices(fp)
+	if len(two.Services) < 2 {
+		return []*spec.File{two}
+	}
+	base := two.Path[:len(two.Path)-len("defs.proto")]
+	types := &spec.File{Path: base + "types.proto", Package: two.Package, GoImport: two.GoImport, GoName: two.GoName, Messages: two.Messages, Enums: two.Enums}
+	a := &spec.File{Path: base + "svc_a.proto", Package: two.Package, GoImport: two.GoImport, GoName: two.GoName, Imports: []string{types.Path}, Services: []*spec.Service{two.Services[0]}}
+	b := &spec.File{Path: base + "svc_b.proto", Package: two.Package, GoImport: two.GoImport, GoName: two.GoName, Imports: []string{types.Path}, Services: []*spec.Service{two.Services[1]}}
+	return []*spec.File{types, a, b}
+}
